@@ -20,12 +20,12 @@ class Case:
         self.md_error = None
 
 
-def make_case(seed, work, cfg_filter=None, extra_cflags=(), max_tries=40, yaml_text=None, dname=None):
+def make_case(seed, work, cfg_filter=None, extra_cflags=(), max_tries=40, yaml_text=None, dname=None, profile='rt'):
     """generates (or takes) a configuration, loads it with the real front end, builds its runner"""
     rnd = random.Random(seed)
     rejected = 0
     for _ in range(max_tries):
-        text = yaml_text or gencfg.gen_config(rnd, profile='rt')[0]
+        text = yaml_text or gencfg.gen_config(rnd, profile=profile)[0]
         try:
             cfg = common.load_cfg(text)
         except Exception:
@@ -79,13 +79,13 @@ def kv(line):
 
 
 def run_rt(c, oracle, nconfigs, nhist, gen_hist=None, cfg_filter=None, hist_kwargs=None,
-           known_classifier=None, extra_cflags=(), label='H-runtime'):
+           known_classifier=None, extra_cflags=(), label='H-runtime', profile='rt', seed_base=0):
     """oracle(case, hist, impl_lines) -> list of failure strings (empty = property held on this run).
     known_classifier(case, hist, impl_lines, failures) -> known-finding entry or None."""
     work = common.scratch()
-    seeds = [c.seed * 1000 + i for i in range(nconfigs)]
+    seeds = [c.seed * 1000 + seed_base + i for i in range(nconfigs)]
     with ThreadPoolExecutor(max_workers=min(common.NPROC, 12)) as ex:
-        made = list(ex.map(lambda s: make_case(s, work, cfg_filter, extra_cflags), seeds))
+        made = list(ex.map(lambda s: make_case(s, work, cfg_filter, extra_cflags, profile=profile), seeds))
     cases, rejected, compile_failed = [], 0, []
     for m in made:
         if isinstance(m[0], Case):
